@@ -6,7 +6,7 @@ from multiprocessing import Pool
 
 from . import gen as G, cases as C, drive
 
-EVKEYS = ("k", "name", "el", "tag", "raised", "pos", "outcome", "status", "undefined", "cid")
+EVKEYS = ("k", "name", "el", "tag", "raised", "pos", "outcome", "status", "undefined", "cid", "via")
 
 
 def _proj(e):
@@ -224,6 +224,24 @@ def plan(tier, seed):
         nh = G.count_hooks_upper(G.flatten(prog))
         return [(with_o2(prog), [G.cfg(stop=True)], [[0, 0]] + [[k, 0] for k in range(1, nh + 1)])]
 
+    def with_typed(p, prob):
+        """some programs: steps written with all five keywords, one step function per step type under the same pattern"""
+        if rnd.random() < prob:
+            p["typed"] = rnd.randint(1, 15)
+        return p
+
+    def typed_programs():
+        """every keyword at every position of a five-step scenario (salts 1..15), with feature and rule backgrounds, plain
+        scenarios and outline rows: the function registered for the step's own type runs, And / But inherit the type"""
+        res = []
+        for salt in range(1, 16):
+            sc = G.scenario(["pass"] * 5)
+            ol = G.outline([([], [["pass", "pass", "pass"], ["pass", "fail", "pass"]])])
+            items = [sc, ol, G.rule([G.scenario(["pass", "pass", "error"]), G.scenario(["pass", "nest_pass", "pass", "pending"], ["wip"])], bg=["pass", "pass"])]
+            prog = {"features": [G.feature(items, bg=["pass", "pass", "pass"])], "family": "typed", "typed": salt}
+            res.append((with_o2(prog), [G.cfg(), G.cfg(cont=True, async_steps=(salt % 2 == 0)), G.cfg(dry=True)] if salt % 3 == 0 else [G.cfg(async_steps=(salt % 2 == 0))], [[0, 0]]))
+        return res
+
     def with_literal(p, prob):
         """some programs: outline steps whose text is the same in all rows are written without placeholder"""
         if rnd.random() < prob:
@@ -324,10 +342,11 @@ def plan(tier, seed):
         for p in G.family_scen(2):
             out.append((with_o2(p), [G.cfg(), rcfg()], rfaults(p, 2)))
         for p in G.family_tree(rnd, 260):
-            p = with_literal(with_hdronly(with_hookcl(with_skips(with_o2(p), 0.2), 0.3), 0.2), 0.3)
+            p = with_typed(with_literal(with_hdronly(with_hookcl(with_skips(with_o2(p), 0.2), 0.3), 0.2), 0.3), 0.3)
             out.append((p, with_names(p, [dict(c, retry=False) for c in (rcfg(), rcfg())] if p.get("skips") else [rcfg(), rcfg()], 0.2), rfaults(p, 2)))
         for p in G.family_big(rnd, 40):
-            out.append((with_o2(p), [rcfg()], rfaults(p, 2)))
+            out.append((with_typed(with_o2(p), 0.4), [rcfg()], rfaults(p, 2)))
+        out.extend(typed_programs())
         out.extend(cleanup_only_programs())
         out.extend(logging_programs())
         out.extend(lateskip_programs())
@@ -357,7 +376,7 @@ def plan(tier, seed):
                     G.cfg(show_skipped=False, capture=(alt % 2 == 0, alt % 3 == 0, alt % 5 == 0))]
             out.append((p, cfgs, [[0, 0]] + spread(nh, 3)))
         for p in G.family_tree(rnd, 1000):
-            p = with_literal(with_hdronly(with_hookcl(with_skips(with_o2(p), 0.2), 0.3), 0.2), 0.3)
+            p = with_typed(with_literal(with_hdronly(with_hookcl(with_skips(with_o2(p), 0.2), 0.3), 0.2), 0.3), 0.3)
             nh = G.count_hooks_upper(G.flatten(p))
             cf = [rcfg(), rcfg()]
             out.append((p, with_names(p, [dict(c, retry=False) for c in cf] if p.get("skips") else cf, 0.2), [[0, 0]] + spread(nh, 6) + rfaults(p, 2)[1:]))
@@ -369,8 +388,9 @@ def plan(tier, seed):
         out.extend(exception_class_programs())
         out.extend(decorated_hook_programs())
         out.extend(stop_fault_programs())
+        out.extend(typed_programs())
         for p in G.family_big(rnd, 300):
-            out.append((with_o2(p), [rcfg(), rcfg()], rfaults(p, 6)))
+            out.append((with_typed(with_o2(p), 0.4), [rcfg(), rcfg()], rfaults(p, 6)))
     return out
 
 
@@ -378,7 +398,7 @@ def shared(chk, part="core"):
     """Run (or load) the shared stage for this tree / tier / seed.  Returns a dict:
        n_runs, tlc: [{module,cfg,distinct,generated,wall,coverage}], verdicts: {clause: [ {key, ...} ]},
        divergences, samples, design_violations"""
-    key = tree_key({"tier": chk.tier, "seed": chk.seed, "part": part, "v": 36})
+    key = tree_key({"tier": chk.tier, "seed": chk.seed, "part": part, "v": 37})
     os.makedirs(CACHE, exist_ok=True)
     # one entry per (part, tier, repository location): runs against a mutated copy must not evict /repo's entry
     prefix = "%s-%s-%s-" % (part, chk.tier, hashlib.sha256(REPO.encode()).hexdigest()[:8])
